@@ -127,8 +127,15 @@ def pool():
         # several named arguments, a later one instantiating another package (discovery must look at all of them)
         ("let", "c", new(C, named("f", f), named("ns:p/i", i, True), named("k", acc(new("wm", inf("i")), "k")))),
         ("let", "c", new(C, named("k", acc(new("wm", named("i", acc(new(P), "i"))), "k")), named("f", acc(new(P), "f")), FILL)),
+        # a function *type* declared (and thereby exported) under the name of a function export (C11 only)
+        ("type", "run", "tfun", "type run = func(a: u32) -> u32;"),
     ]
     return s
+
+
+def c04_focus(stmts):
+    """type statements belong to C05; their exports are not comparable by the wiring decoder"""
+    return [i + 1 for i, s in enumerate(stmts) if s[0] != "type"]
 
 
 def targets_focus(stmts):
@@ -154,6 +161,7 @@ def targets_focus(stmts):
         ("export", acc(ident("v"), "run"), None),
         ("export", acc(p, "f"), None),
         ("export", acc(p, "g"), None),
+        ("type", "run", "tfun", "type run = func(a: u32) -> u32;"),
     ]
     return [stmts.index(w) + 1 for w in want]
 
@@ -169,6 +177,9 @@ WORLDS = {
     "w3b": ("ns:p", None, [], [("f", "fB", "export f: func(b: u32, c: u32);")]),
     "w4": ("ns:p", None, [("f", "fB", "import f: func(b: u32, c: u32);")], [("run", "fA", "export run: func(a: u32) -> u32;")]),
     "wv": ("ns:v", (1, 2, 0), [("ns:v/i@1.2.0", "Ii", "import i;")], [("run", "fA", "export run: func(a: u32) -> u32;")]),
+    # an exported instance wider / narrower than what the provider's `h` ({x}) offers
+    "w5": ("ns:p", None, [], [("h", "Ixz", "export h: interface { x: func(a: u32) -> u32; z: func(a: u32) -> u32; }")]),
+    "w6": ("ns:p", None, [], [("h", "I0", "export h: interface { }")]),
 }
 
 
@@ -218,6 +229,8 @@ def arg_text(a):
 
 
 def stmt_text(s):
+    if s[0] == "type":
+        return s[3]
     if s[0] == "import":
         ty = s[3]
         t = FUNC_TEXT[ty[1]] if ty[0] == "func" else IFACE_TEXT[ty[1]] if ty[0] == "iface" else ty[1]
@@ -256,6 +269,8 @@ def arg_tla(a):
 
 
 def stmt_tla(s):
+    if s[0] == "type":
+        return f'[s |-> "type", id |-> {tla_str(s[1])}, def |-> {tla_str(s[2])}]'
     if s[0] == "import":
         ty = s[3]
         # the import name: the `as` name, else the path for imports by path, else the local name
@@ -298,6 +313,7 @@ def emit():
     t.append("W_Colon == (" + " @@ ".join(f"{tla_str(n)} :> {'TRUE' if ':' in n else 'FALSE'}" for n in sorted(names)) + ")")
     t.append("W_Packages == {" + ", ".join(tla_str(k) for k in lib["pkgs"]) + "}")
     t.append("W_TargetsFocus == {" + ", ".join(str(i) for i in targets_focus(stmts)) + "}")
+    t.append("W_C04Focus == {" + ", ".join(str(i) for i in c04_focus(stmts)) + "}")
 
     def items(xs):
         return "(" + " @@ ".join(f"{tla_str(n)} :> {tla_kind(lib['kinds'][k])}" for n, k, _ in xs) + ")" if xs else "<<>>"
